@@ -57,6 +57,16 @@ type Server struct {
 	quit   chan struct{}
 	cdone  chan struct{}
 	jmu    sync.Mutex
+
+	stallMu sync.Mutex
+	stall   *opStall
+	kick    chan struct{}
+}
+
+// opStall is one stall of the operator consumer.
+type opStall struct {
+	entered chan struct{} // closed by the consumer once it has stopped taking lines
+	resume  chan struct{} // closed by the resume function
 }
 
 // jsonSink receives the JSON handler's output; each Write is one record.
@@ -78,9 +88,10 @@ func Start(c Config) (*Server, error) {
 		c.OchCap = 1024
 	}
 	s := &Server{
-		Ich: make(chan string, 1024),
-		Och: make(chan opshell.CLine, c.OchCap),
-		Log: bk.NewLog(),
+		Ich:  make(chan string, 1024),
+		Och:  make(chan opshell.CLine, c.OchCap),
+		Log:  bk.NewLog(),
+		kick: make(chan struct{}, 1),
 	}
 	iob, err := iobroker.New(s.Ich, s.Och)
 	if err != nil {
@@ -115,9 +126,20 @@ func Start(c Config) (*Server, error) {
 func (s *Server) consume() {
 	defer close(s.cdone)
 	for {
+		s.stallMu.Lock()
+		st := s.stall
+		s.stallMu.Unlock()
+		if st != nil {
+			close(st.entered)
+			select {
+			case <-st.resume:
+			case <-s.quit:
+			}
+		}
 		select {
 		case cl := <-s.Och:
 			s.Log.Add(bk.Event{Kind: "op", Att: -1, S: cl.Line, Plain: cl.Plain, Color: int(cl.Color), S2: cl.Prompt, N: b2i(cl.NoTimestamp)})
+		case <-s.kick:
 		case <-s.quit:
 			for {
 				select {
@@ -129,6 +151,42 @@ func (s *Server) consume() {
 				return
 			}
 		}
+	}
+}
+
+// StallOperator makes the operator consumer (the "terminal") stop taking
+// lines off the operator channel until the returned function is called. When
+// StallOperator returns true the consumer is known to have stopped: whatever is
+// sent from then on stays in the channel (and senders block once it is full).
+// Lines are logged in channel order after the resume. One stall at a time.
+func (s *Server) StallOperator() (resume func(), ok bool) {
+	st := &opStall{entered: make(chan struct{}), resume: make(chan struct{})}
+	s.stallMu.Lock()
+	if s.stall != nil {
+		s.stallMu.Unlock()
+		return func() {}, false
+	}
+	s.stall = st
+	s.stallMu.Unlock()
+	select {
+	case s.kick <- struct{}{}:
+	default:
+	}
+	var once sync.Once
+	resume = func() {
+		once.Do(func() {
+			s.stallMu.Lock()
+			s.stall = nil
+			s.stallMu.Unlock()
+			close(st.resume)
+		})
+	}
+	select {
+	case <-st.entered:
+		return resume, true
+	case <-time.After(Bound):
+		resume()
+		return func() {}, false
 	}
 }
 
